@@ -261,6 +261,9 @@ func harnessNames(dir string) []string {
 	var names []string
 	for _, f := range files {
 		data, _ := os.ReadFile(f)
+		if strings.Contains(string(data), "verifgen") && os.Getenv("GOSYM_GEN") == "" {
+			continue
+		}
 		for _, l := range strings.Split(string(data), "\n") {
 			if strings.HasPrefix(l, "func H") && strings.Contains(l, "() {") {
 				n := strings.TrimPrefix(l, "func ")
@@ -325,12 +328,12 @@ func runReplays(dir string, cases []ReplayCase, mutant string) map[string]*Repla
 		casePath := filepath.Join(pdir, "cases.json")
 		os.WriteFile(casePath, cb, 0o644)
 		pkgPath := "./" + pkgDirs[pkg]
-		cmd := exec.Command("go", "test", "-vet=off", "-count=1", "-tags", "verif", "-overlay", ovPath, "-run", "^TestVerifReplay$", "-timeout", "20m", "-v", pkgPath)
+		cmd := exec.Command("go", "test", "-vet=off", "-count=1", "-tags", buildTags(), "-overlay", ovPath, "-run", "^TestVerifReplay$", "-timeout", "20m", "-v", pkgPath)
 		cmd.Dir = repoRoot()
 		cmd.Env = append(os.Environ(), "GOFLAGS=-mod=mod", "GOPROXY=off", "GOSUMDB=off", "GOTOOLCHAIN=local", "VERIF_REPLAY="+casePath)
 		outb, err := cmd.CombinedOutput()
 		os.WriteFile(filepath.Join(pdir, "replay.log"), outb, 0o644)
-		script := fmt.Sprintf("#!/bin/sh\n# re-run this replay against the current /repo tree\ncd %s && GOFLAGS=-mod=mod GOPROXY=off GOSUMDB=off GOTOOLCHAIN=local VERIF_REPLAY=%s go test -vet=off -count=1 -tags verif -overlay %s -run '^TestVerifReplay$' -v %s\n", repoRoot(), casePath, ovPath, pkgPath)
+		script := fmt.Sprintf("#!/bin/sh\n# re-run this replay against the current /repo tree\ncd %s && GOFLAGS=-mod=mod GOPROXY=off GOSUMDB=off GOTOOLCHAIN=local VERIF_REPLAY=%s go test -vet=off -count=1 -tags %s -overlay %s -run '^TestVerifReplay$' -v %s\n", repoRoot(), casePath, buildTags(), ovPath, pkgPath)
 		os.WriteFile(filepath.Join(pdir, "replay.sh"), []byte(script), 0o755)
 		seen := map[string]bool{}
 		for _, l := range strings.Split(string(outb), "\n") {
@@ -437,6 +440,13 @@ func checkMain(args []string) int {
 			openKF = append(openKF, k)
 		}
 	}
+	if def.Gen != nil {
+		os.Setenv("GOSYM_GEN", "1")
+		if err := def.Gen(); err != nil {
+			fmt.Printf("INCONCLUSIVE property=%s code generation failed: %v\n", prop, err)
+			return 2
+		}
+	}
 	// meta run: concrete facts about the tree the job list depends on
 	meta := map[string]int{}
 	if def.Meta != "" {
@@ -506,6 +516,7 @@ func checkMain(args []string) int {
 	var totalPaths, totalQueries, totalAsserts, totalTriv, unwind, unknown, pathsDone int
 	var solverS float64
 	var steps int64
+	modelRetries := 0
 	funcs := map[string]bool{}
 	stubs := map[string]bool{}
 	reached := map[string]int{}
@@ -535,12 +546,13 @@ func checkMain(args []string) int {
 			inconclusive = append(inconclusive, fmt.Sprintf("%s %v: %d unwinding/limit failures %v", r.Harness, r.Params, r.UnwindFail, r.Samples))
 		}
 		if r.Unknown > 0 {
-			inconclusive = append(inconclusive, fmt.Sprintf("%s %v: %d unknown solver answers", r.Harness, r.Params, r.Unknown))
+			inconclusive = append(inconclusive, fmt.Sprintf("%s %v: %d unknown solver answers / model mismatches %v solver=%+v", r.Harness, r.Params, r.Unknown, r.Samples, r.Solver))
 		}
 		if r.Solver.Errors > 0 {
 			inconclusive = append(inconclusive, fmt.Sprintf("%s: %d solver errors: %s", r.Harness, r.Solver.Errors, r.SolverErr))
 		}
 		totalPaths += r.Paths
+		modelRetries += r.ModelRetries
 		pathsDone += r.PathsDone
 		totalQueries += r.Solver.Queries
 		totalAsserts += r.Asserts
@@ -577,8 +589,8 @@ func checkMain(args []string) int {
 		if r.SampleTape != nil && len(samples) < 400 {
 			name := fmt.Sprintf("s%d", i)
 			allow := map[string]bool{}
-			for _, f := range r.Failures {
-				allow[f.ID] = true
+			for id := range r.FailedIDs {
+				allow[id] = true
 			}
 			cases = append(cases, ReplayCase{Name: name, Harness: r.Harness, Params: r.Params, Tape: r.SampleTape, Expect: "pass", Allow: allow})
 		}
@@ -715,6 +727,7 @@ func checkMain(args []string) int {
 		"assert_checks_folded_to_true":  totalTriv,
 		"unwind_failures":               unwind,
 		"unknown_queries":               unknown,
+		"solver_models_rejected_and_requeried": modelRetries,
 		"solver_s":                      solverS,
 		"ssa_instructions_interpreted":  steps,
 		"functions_encoded":             fl,
